@@ -787,7 +787,24 @@ def mgda(index, ctx, A, by_class):
             step_names = {gname} | {s2.targets[0].id for s2 in ast.walk(loop) if isinstance(s2, ast.Assign) and isinstance(s2.targets[0], ast.Name)
                                     and isinstance(s2.value, ast.Name) and s2.value.id == gname}  # plain copies of the step size
             if gname is not None and used and used <= step_names:
-                ctx.ok("R5", key, "exit decided by the step size alone (a dimensionless quantity)", _loc(fi, t.ast))
+                # the step that was just computed is taken before the loop is left: for two rows the first line search is exact, so
+                # leaving with the step untaken returns the starting point instead of the minimum-norm point of the segment
+                un, fn_ = cfg.node_of(u), cfg.node_of(loop)
+                seen_, todo = set(), [m_ for m_, lb_ in cfg.succ[fn_] if any(m_.ast is x for x in ast.walk(loop) if m_.ast is not None)]
+                while todo:
+                    c_ = todo.pop()
+                    if c_ in seen_ or c_ is un or c_ is fn_:
+                        continue
+                    seen_.add(c_)
+                    todo.extend(m_ for m_, _ in cfg.succ[c_])
+                zero_test = isinstance(t.ast.test, ast.Compare) and isinstance(t.ast.test.ops[0], (ast.Eq, ast.LtE)) and isinstance(t.ast.test.comparators[0], ast.Constant) \
+                    and t.ast.test.comparators[0].value == 0
+                if nd in seen_ and not zero_test:
+                    ctx.violated("R5", key, f"the exit can fire before `{norm_text(u)[:60]}` has been executed in that iteration: the step whose size was just computed is dropped. For two "
+                                 "rows the first line search is exact, so whenever its step is below the threshold the uniform starting point is returned instead of the minimum-norm point "
+                                 "of the segment", _loc(fi, t.ast))
+                    continue
+                ctx.ok("R5", key, "exit decided by the step size alone (a dimensionless quantity), after the step was taken", _loc(fi, t.ast))
                 continue
             ev = scale_locs.get(str(t.ast.lineno))
             if ev is not None:
